@@ -9,6 +9,7 @@ verus! {
 //@include shims/crc32fast.rs
 //@include common/types.rs
 //@include shims/readers.rs
+//@include shims/mem.rs
 pub mod io2 {}
 pub mod spec {
 //@item src/spec.rs | const LOCAL_FILE_HEADER_SIGNATURE
@@ -16,6 +17,9 @@ pub mod spec {
 }
 pub open spec fn sig_at(d: Seq<u8>, p: int, sig: u32) -> bool { inb(d, p, 4) && de32(at(d, p, 4)) == sig }
 //@include spec/appnote_headers.rs
+//@include shims/cp437.rs
+//@include spec/extra_walk.rs
+//@include spec/parsed.rs
 
 //@item src/crc32.rs | struct Crc32Reader
 impl<R: Dev> Dev for Crc32Reader<R> {
@@ -34,7 +38,15 @@ impl<R: Read> Read for Crc32Reader<R> {
 }
 impl DateTime {
 //@use dt_timepart nobody
+//@use dt_from_msdos nobody
 }
+impl System {
+//@use system_from_u8 nobody
+}
+impl CompressionMethod {
+//@use cm_from_u16 nobody
+}
+//@use parse_extra_field nobody
 
 //@item src/read.rs | enum CryptoReader
 impl<'a> Dev for CryptoReader<'a> {
@@ -113,9 +125,32 @@ impl<'a> Dev for ZipFile<'a> {
 impl<'a> ZipFile<'a> {
 //@use zipfile_get_reader
 }
+// C10: what the streaming reader must report for a local header
+pub open spec fn lstate0(h: Lfh) -> XState {
+    XState { usz: h.usize32 as u64, csz: h.csize32 as u64, hs: 0, large: false, aes: None, method: method_of_code(h.method) }
+}
+pub open spec fn streamed_matches(f: ZipFileData, h: Lfh, made_by: u16) -> bool {
+    &&& f.system == system_of_code((made_by >> 8) as u8)
+    &&& f.encrypted == (h.flags & 1 == 1)
+    &&& f.using_data_descriptor == (h.flags & (1u16 << 3) != 0)
+    &&& f.last_modified_time == msdos_dt(h.date, h.time)
+    &&& f.crc32 == h.crc
+    &&& f.file_name_raw@ == h.name
+    &&& f.file_name@ == decode_text(h.flags, h.name)
+    &&& f.extra_field@ == h.extra
+    &&& (xwf(h.extra, 0, lstate0(h)) ==> (xwalk(h.extra, 0, lstate0(h)) matches Some(st)
+            && f.uncompressed_size == st.usz && f.compressed_size == st.csz && f.compression_method == st.method))
+}
+//@use read_zipfile_from_stream
 //@impl src/read.rs | impl<'a> Read for ZipFile<'a>
 impl<'a> Read for ZipFile<'a> {
 //@use zipfile_read
+}
+// T14: `Drop::drop` is verified as an inherent method (same text) so that it can carry the representation
+// invariant zf_wf as a precondition; Verus allows neither preconditions nor ordinary callees in `impl Drop`.
+//@impl src/read.rs | impl<'a> Drop for ZipFile<'a>
+impl<'a> ZipFile<'a> {
+//@use zipfile_drop
 }
 } // verus!
 fn main() {}
